@@ -129,6 +129,13 @@ type MultiResult struct {
 	Results   []PairResult `json:"results"`
 }
 
+// ExecMultiOpts is ExecMulti with extra comparison options (e.g. "dropEvents": a regexp of events removed from both traces).
+func (p *Pool) ExecMultiOpts(ref Prog, outs []Prog, opts map[string]interface{}) (MultiResult, error) {
+	var res MultiResult
+	err := p.CallTimeout(map[string]interface{}{"op": "execMulti", "ref": ref, "outs": outs, "opts": opts}, &res, 600*time.Second)
+	return res, err
+}
+
 func (p *Pool) ExecMulti(ref Prog, outs []Prog, ignoreExports bool) (MultiResult, error) {
 	var res MultiResult
 	// finite results of ** are implementation-approximated: allow a few ulps only in programs that use it
